@@ -329,13 +329,22 @@ def _one_store_per_statement(ctx, ff, flow, lp, q, rule="C07.5"):
     has_handler = any(isinstance(x, ast.Try) for x in ast.walk(lp))
     raises = any(isinstance(x, ast.Raise) for x in ast.walk(lp))
     ok_count = lo >= 1 and (hi == 1 or (has_handler and hi == 2))
-    if not ok_count and not (raises and lo == 0 and hi == 1):
-        ctx.violation(rule, k, where(ff, lp), f"{q}: a statement stores between {lo} and {hi} entries on some path — a declaration can be silently skipped")
-    elif raises and lo == 0:
-        # lineshape loops: the only path without a store must be the raising one (checked by the repeat rule)
-        ctx.holds(rule, k, where(ff, lp), f"{q}: one entry per statement unless the repeated-setting error is raised", len(stores))
+    # every stored entry carries a value: an `update()` without argument stores nothing
+    empty = [s_ for _, s_, _ in stores if isinstance(s_, ast.Expr) and not s_.value.args and not s_.value.keywords]
+    if empty:
+        ctx.violation(rule, k + " :: empty-update", where(ff, empty[0]), f"{q}: `{txt(empty[0])[:60]}` stores nothing for this statement")
+    if not ok_count:
+        ctx.violation(rule, k, where(ff, lp), f"{q}: a statement stores between {lo} and {hi} entries on some path that completes normally — a declaration can be silently skipped")
     else:
         ctx.holds(rule, k, where(ff, lp), f"{q}: exactly one entry stored per statement on every path", len(stores))
+    # try: d[k].update(…) / except KeyError: d[k] = {…} — the handler is the path of a NEW outer key and must create the entry
+    for tr in [x for x in ast.walk(lp) if isinstance(x, ast.Try)]:
+        for h in tr.handlers:
+            hn = [] if h.type is None else ([txt(t) for t in h.type.elts] if isinstance(h.type, ast.Tuple) else [txt(h.type)])
+            if "KeyError" in hn or not hn:
+                made = [x for x in h.body if isinstance(x, ast.Assign) and isinstance(x.targets[0], ast.Subscript)]
+                if not made and any(n_ for n_, s_, _ in stores if any(s_ is y for y in ast.walk(tr))):
+                    ctx.violation(rule, k + " :: new-key-handler", where(ff, h), f"{q}: the handler for a new outer key stores nothing: the first declaration of every group is lost")
     keys = {kt for _, _, kt in stores}
     for s in pf.iter_stmts(lp.body):
         if isinstance(s, ast.If):
@@ -413,6 +422,39 @@ def c07_6(ctx, ss):
         ctx.violation("C07.6", ckey(ff, None, "yes-no"), where(ff, ff.node), f"_str_to_bool maps {seen} (fall-through without raise: {falls})")
     # the chain is applied to the value token at both store sites
     ff, flow = fn(ss, DEC, "get_jetset_definitions")
+    # the parameter-name pattern reads NAME(NUMBER) — decided on the automaton of the pattern compiled with its flags
+    import re as _re
+    from ..core.rx import Rx, includes
+    comp = [c for c in pf.calls_in(ff.node, nested=False) if txt(c.func) == "re.compile"]
+    kx = ckey(ff, None, "name-pattern")
+    if len(comp) == 1 and comp[0].args and isinstance(comp[0].args[0], ast.Constant):
+        fl = 0
+        okf = True
+        for a in list(comp[0].args[1:]) + [kw.value for kw in comp[0].keywords if kw.arg == "flags"]:
+            for part in ([a] if not isinstance(a, ast.BinOp) else [x for x in ast.walk(a) if isinstance(x, ast.Attribute)]):
+                v = getattr(_re, part.attr, None) if isinstance(part, ast.Attribute) and txt(part.value) == "re" else None
+                if v is None:
+                    okf = False
+                else:
+                    fl |= int(v)
+        if not okf:
+            ctx.undecided("C07.6", kx, where(ff, comp[0]), "flags of the JetSet name pattern not understood")
+        else:
+            try:
+                got = Rx(comp[0].args[0].value, fl)
+                wit = includes(got, Rx(r"[A-Za-z]+\([0-9]+\)"))
+                bad = next((w for w in ("MSTU1", "PARJ()", "(21)") if got.accepts(w)), None)   # (the pattern is used with .match and is not end-anchored: trailing text after ')' is outside the property)
+                if wit is not None:
+                    ctx.violation("C07.6", kx, where(ff, comp[0]), f"the JetSet name pattern (with its flags) no longer matches {wit!r}: such JetSetPar statements raise")
+                elif bad is not None:
+                    ctx.violation("C07.6", kx, where(ff, comp[0]), f"the JetSet name pattern accepts {bad!r}, which is not NAME(NUMBER)")
+
+                else:
+                    ctx.holds("C07.6", kx, where(ff, comp[0]), "the JetSet name pattern reads every NAME(NUMBER)", got.n_states())
+            except AnchorMissing as e:
+                ctx.undecided("C07.6", kx, where(ff, comp[0]), f"JetSet name pattern: {e}")
+    else:
+        raise AnchorMissing("get_jetset_definitions: the compiled name pattern was not found")
     calls = [c for c in pf.calls_in(ff.node, nested=False) if isinstance(c.func, ast.Name) and c.func.id == "to_int_or_float"]
     if len(calls) < 1:
         ctx.violation("C07.6", ckey(ff, None, "applied"), where(ff, ff.node), "JetSet values no longer go through to_int_or_float")
